@@ -155,7 +155,7 @@ def c_printf(fmt, args):
             out += ch
             i += 1
             continue
-        m = re.match(rb'%([-0 +#]*)(\d*)(?:\.(\d+))?(hh|h|ll|l|z|j|t|)([diuxXcs%])', fmt[i:])
+        m = re.match(rb'%([-0 +#]*)(\d*|\*)(?:\.(\d+|\*))?(hh|h|ll|l|z|j|t|L|)([diuxXcsfFeEgG%])', fmt[i:])
         if not m:
             raise Undecided('unsupported printf conversion in %r' % fmt)
         flags, width, prec, length, conv = m.groups()
@@ -163,11 +163,31 @@ def c_printf(fmt, args):
         if conv == b'%':
             out += b'%'
             continue
+        if width == b'*':
+            if ai >= len(args) or not isinstance(args[ai], int):
+                raise Undecided('printf: * width')
+            width = b'%d' % abs(args[ai])
+            if args[ai] < 0:
+                flags += b'-'
+            ai += 1
+        if prec == b'*':
+            if ai >= len(args) or not isinstance(args[ai], int):
+                raise Undecided('printf: * precision')
+            prec = (b'%d' % args[ai]) if args[ai] >= 0 else None
+            ai += 1
         if ai >= len(args):
             raise Undecided('printf: too few arguments')
         a = args[ai]
         ai += 1
-        if conv == b's':
+        if conv in b'fFeEgG':
+            if isinstance(a, int):
+                raise Undecided('printf floating conversion of an integer')
+            if not isinstance(a, float):
+                raise Undecided('printf floating conversion of a non-number')
+            spec = '%' + ('+' if b'+' in flags else '') + ('#' if b'#' in flags else '') + ('.%d' % int(prec) if prec is not None and prec != b'' else '') + conv.decode()
+            s = (spec % a).encode()
+            prec = None       # the zero flag applies to floating conversions whatever the precision
+        elif conv == b's':
             s = a.cstr() if isinstance(a, Lit) else bytes(a.b) if isinstance(a, Str) else None
             if s is None:
                 raise Undecided('printf %s of a non-string')
@@ -515,6 +535,27 @@ class PEval:
     def construct(self, n, env, depth):
         t = dtype(n) or ''
         args = [c for c in kids(n) if c.get('kind') and c.get('kind') != 'CXXDefaultArgExpr']
+        if t.replace('const ', '').startswith('std::pair<') and len(args) in (1, 2):
+            from props.c04 import split_targs
+            ts = split_targs(t)
+            vals = [self.ev(a, env, depth) for a in args]
+            if len(vals) == 1 and isinstance(vals[0], tuple) and vals[0] and vals[0][0] == 'pair':
+                vals = list(vals[0][1:])
+            if len(vals) == 2 and len(ts) == 2:
+                out = []
+                for v, et in zip(vals, ts):
+                    if isinstance(v, float) and int_type_info(et):
+                        bits, signed = int_type_info(et)
+                        lo, hi = (-(1 << (bits - 1)), (1 << (bits - 1)) - 1) if signed else (0, (1 << bits) - 1)
+                        if v != v or not (lo - 1 < v < hi + 1):
+                            raise Fault('conversion of the floating value %r to %s is undefined' % (v, et))
+                        v = int(v)
+                    if isinstance(v, int) and int_type_info(et):
+                        v = self.wrap(v, et)
+                    if isinstance(v, Lit) and 'basic_string' in et:
+                        v = Str(v.cstr())
+                    out.append(v)
+                return ('pair',) + tuple(out)
         if 'basic_string' in t:
             if not args:
                 return Str()
@@ -533,7 +574,7 @@ class PEval:
                     return Str(bytes([b & 0xFF]) * a)
                 if isinstance(a, tuple) and a[0] == 'iter' and isinstance(b, tuple) and b[0] == 'iter':
                     return Str(a[1].b[a[2]:b[2]])
-            raise Undecided('std::string constructor form')
+            raise Undecided('std::string constructor form %s at %s' % ([type(v_).__name__ for v_ in vals], loc_str(n)))
         if len(args) == 1:
             return self.ev(args[0], env, depth)
         if not args:
@@ -844,6 +885,24 @@ class PEval:
                 st.pos += cnt
                 self.reads = getattr(self, 'reads', []) + [cnt]
                 return None
+        if name == 'make_pair' and len(args) == 2:
+            vs = [self.ev(a, env, depth) for a in args]
+            return ('pair',) + tuple(Str(v.b) if isinstance(v, Str) else v for v in vs)
+        if name == 'to_string' and len(args) == 1:
+            v = self.ev(args[0], env, depth)
+            if isinstance(v, int):
+                return Str(str(v).encode())
+        if name in ('stod', 'stof', 'strtod', 'atof') and len([a for a in args if a.get('kind') != 'CXXDefaultArgExpr']) == 1:
+            v = self.ev(args[0], env, depth)
+            if isinstance(v, (Str, Lit)):
+                txt = (bytes(v.b) if isinstance(v, Str) else v.cstr()).lstrip(b' \t\n\r\v\f')
+                import re as _re
+                m_ = _re.match(rb'[+-]?(?:[0-9]+\.?[0-9]*|\.[0-9]+)(?:[eE][+-]?[0-9]+)?', txt)
+                if not m_:
+                    if name in ('stod', 'stof'):
+                        raise Thrown(n, '%s of text without a number (invalid_argument)' % name)
+                    return 0.0
+                return float(m_.group(0))
         if name in ('fgetc', 'getc') and len(args) == 1:
             st = self.ev(args[0], env, depth)
             if isinstance(st, Stream):
